@@ -77,6 +77,20 @@ pub enum Body {
 pub struct Line {
     pub body: Body,
     pub term: Term,
+    /// stored-byte corruption: the byte at this offset of the line's text is 0xFF in the file
+    /// (never valid UTF-8), as after a flipped bit / bad sector / wrong transcoding
+    pub corrupt: Option<usize>,
+}
+
+/// One expected item: which physical line it is about, what must be delivered, and whether the
+/// line may legitimately produce no item at all (only for corrupted lines).
+#[derive(Clone, Debug, PartialEq, Eq)]
+pub struct Entry {
+    pub line: u64,
+    pub exp: Expect,
+    pub optional: bool,
+    /// index into `rows` (None for the header)
+    pub row: Option<usize>,
 }
 
 impl Line {
@@ -107,18 +121,29 @@ pub enum Expect {
 pub struct FileModel {
     /// None = empty file (not even a header)
     pub header: Option<(String, Term)>,
+    pub header_corrupt: Option<usize>,
     pub rows: Vec<Line>,
+}
+
+fn corrupted(text: &str, at: Option<usize>) -> Vec<u8> {
+    let mut b = text.as_bytes().to_vec();
+    if let Some(i) = at {
+        if i < b.len() {
+            b[i] = 0xFF;
+        }
+    }
+    b
 }
 
 impl FileModel {
     pub fn bytes(&self) -> Vec<u8> {
         let mut v = Vec::new();
         if let Some((h, t)) = &self.header {
-            v.extend_from_slice(h.as_bytes());
+            v.extend_from_slice(&corrupted(h, self.header_corrupt));
             v.extend_from_slice(t.s().as_bytes());
         }
         for r in &self.rows {
-            v.extend_from_slice(r.text().as_bytes());
+            v.extend_from_slice(&corrupted(&r.text(), r.corrupt));
             v.extend_from_slice(r.term.s().as_bytes());
         }
         v
@@ -131,10 +156,21 @@ impl FileModel {
             if n > 0 && *t == Term::None {
                 *t = Term::Lf;
             }
+            if let Some(c) = self.header_corrupt {
+                if c >= self.header.as_ref().unwrap().0.len() {
+                    self.header_corrupt = None;
+                }
+            }
         } else {
             self.rows.clear();
+            self.header_corrupt = None;
         }
         for (i, r) in self.rows.iter_mut().enumerate() {
+            if let Some(c) = r.corrupt {
+                if c >= r.text().len() {
+                    r.corrupt = None;
+                }
+            }
             // an empty last line without a terminator is no line at all
             if r.term == Term::None && (i + 1 < n || r.text().is_empty()) {
                 r.term = Term::Lf;
@@ -142,14 +178,29 @@ impl FileModel {
         }
     }
 
-    pub fn expectations(&self) -> Vec<Expect> {
-        self.rows
-            .iter()
-            .map(|r| match &r.body {
+    pub fn has_corruption(&self) -> bool {
+        self.header_corrupt.is_some() || self.rows.iter().any(|r| r.corrupt.is_some())
+    }
+
+    pub fn expectations(&self) -> Vec<Entry> {
+        let mut v = vec![];
+        if self.header.is_some() && self.header_corrupt.is_some() {
+            // an unreadable header may or may not be reported; it is still line 1 and still skipped
+            v.push(Entry { line: 1, exp: Expect::Any, optional: true, row: None });
+        }
+        for (i, r) in self.rows.iter().enumerate() {
+            let line = i as u64 + 2;
+            if r.corrupt.is_some() {
+                v.push(Entry { line, exp: Expect::Any, optional: true, row: Some(i) });
+                continue;
+            }
+            let exp = match &r.body {
                 Body::Good(g) => Expect::Rec { lo: g.lo, hi: g.hi, p: g.p, q: g.q, desc: g.desc.clone() },
                 Body::Bad { .. } => Expect::Err,
-            })
-            .collect()
+            };
+            v.push(Entry { line, exp, optional: false, row: Some(i) });
+        }
+        v
     }
 
     /// The file as it is after the writer crashed / the disk filled at byte `at`: the model of
@@ -211,10 +262,10 @@ impl FileModel {
 
     pub fn to_json(&self) -> Value {
         json!({
-            "header": self.header.as_ref().map(|(h, t)| json!({"text": h, "term": t.name()})),
+            "header": self.header.as_ref().map(|(h, t)| json!({"text": h, "term": t.name(), "corrupt_byte_at": self.header_corrupt})),
             "rows": self.rows.iter().map(|r| match &r.body {
-                Body::Good(g) => json!({"good": {"lo": g.lo, "hi": g.hi, "width": g.width, "p": g.p, "q": g.q, "desc": g.desc}, "term": r.term.name(), "text": r.text()}),
-                Body::Bad { text, class } => json!({"bad": {"text": text, "class": class}, "term": r.term.name()}),
+                Body::Good(g) => json!({"good": {"lo": g.lo, "hi": g.hi, "width": g.width, "p": g.p, "q": g.q, "desc": g.desc}, "term": r.term.name(), "text": r.text(), "corrupt_byte_at": r.corrupt}),
+                Body::Bad { text, class } => json!({"bad": {"text": text, "class": class}, "term": r.term.name(), "corrupt_byte_at": r.corrupt}),
             }).collect::<Vec<_>>(),
         })
     }
@@ -224,6 +275,7 @@ impl FileModel {
             Value::Null => None,
             h => Some((h.get("text")?.as_str()?.to_string(), Term::from_name(h.get("term")?.as_str()?)?)),
         };
+        let header_corrupt = v.get("header").and_then(|h| h.get("corrupt_byte_at")).and_then(|x| x.as_u64()).map(|x| x as usize);
         let mut rows = vec![];
         for r in v.get("rows")?.as_array()? {
             let term = Term::from_name(r.get("term")?.as_str()?)?;
@@ -240,9 +292,10 @@ impl FileModel {
                 let b = r.get("bad")?;
                 Body::Bad { text: b.get("text")?.as_str()?.to_string(), class: b.get("class")?.as_str()?.to_string() }
             };
-            rows.push(Line { body, term });
+            let corrupt = r.get("corrupt_byte_at").and_then(|x| x.as_u64()).map(|x| x as usize);
+            rows.push(Line { body, term, corrupt });
         }
-        let mut m = FileModel { header, rows };
+        let mut m = FileModel { header, header_corrupt, rows };
         m.normalise();
         Some(m)
     }
@@ -252,6 +305,8 @@ impl FileModel {
 
 #[derive(Clone, Debug)]
 pub struct GenCfg {
+    /// stored-byte corruption: number of lines that get one 0xFF byte (strict configuration only)
+    pub corrupt_lines: usize,
     pub rows: usize,
     pub bad_share: u64, // per 100
     pub term_style: u8, // 0 lf, 1 crlf, 2 mixed
@@ -408,6 +463,7 @@ pub fn gen_cfg(rng: &mut Rng, thorough: bool) -> GenCfg {
         desc_shapes.push(rng.below(7) as u8);
     }
     GenCfg {
+        corrupt_lines: if rng.chance(1, 6) { 1 + rng.usize_below(2) } else { 0 },
         rows,
         bad_share: *rng.pick(&[0u64, 0, 10, 10, 30, 50, 100]),
         term_style: rng.below(3) as u8,
@@ -419,7 +475,7 @@ pub fn gen_cfg(rng: &mut Rng, thorough: bool) -> GenCfg {
 
 pub fn gen_file(rng: &mut Rng, cfg: &GenCfg) -> FileModel {
     if rng.chance(1, 60) {
-        return FileModel { header: None, rows: vec![] };
+        return FileModel { header: None, header_corrupt: None, rows: vec![] };
     }
     let term = |rng: &mut Rng| match cfg.term_style {
         0 => Term::Lf,
@@ -431,9 +487,9 @@ pub fn gen_file(rng: &mut Rng, cfg: &GenCfg) -> FileModel {
     let mut rows = vec![];
     for _ in 0..cfg.rows {
         let body = if rng.below(100) < cfg.bad_share { gen_bad(rng, cfg) } else { Body::Good(gen_good(rng, cfg)) };
-        rows.push(Line { body, term: term(rng) });
+        rows.push(Line { body, term: term(rng), corrupt: None });
     }
-    let mut m = FileModel { header, rows };
+    let mut m = FileModel { header, header_corrupt: None, rows };
     if cfg.last_term_none {
         if let Some(l) = m.rows.last_mut() {
             l.term = Term::None;
@@ -443,4 +499,25 @@ pub fn gen_file(rng: &mut Rng, cfg: &GenCfg) -> FileModel {
     }
     m.normalise();
     m
+}
+
+/// Overwrites one byte in `n` randomly chosen lines (header included) with 0xFF.
+pub fn corrupt_file(rng: &mut Rng, m: &mut FileModel, n: usize) {
+    for _ in 0..n {
+        let nlines = m.rows.len() + 1;
+        let k = rng.usize_below(nlines);
+        if k == 0 || rng.chance(1, 8) {
+            if let Some((h, _)) = &m.header {
+                if !h.is_empty() {
+                    m.header_corrupt = Some(rng.usize_below(h.len()));
+                }
+            }
+        } else {
+            let r = &mut m.rows[k - 1];
+            let len = r.text().len();
+            if len > 0 {
+                r.corrupt = Some(rng.usize_below(len));
+            }
+        }
+    }
 }
